@@ -1,4 +1,5 @@
 import CatiiProofs.SchedProofs
+import CatiiModel.Gen.DriverGen
 /-!
 # C16 — pooled evaluation is schedule-independent
 
@@ -44,5 +45,28 @@ def setCell (t : Nat) (v : Nat) : TStep Nat Nat := ⟨t, fun σ l => if l = t th
 example (t v : Nat) : Disciplined (fun i l => l = i) (setCell t v) :=
   ⟨fun σ l h => by simp only [setCell] at h ⊢; simp [h], fun σ σ' _ l h => by simp only [setCell] at h ⊢; simp [h]⟩
 example : ∀ i j : Nat, i ≠ j → ∀ l, ¬ (l = i ∧ l = j) := fun i j h l ⟨a, b⟩ => h (a ▸ b)
+
+
+/-! ### what the CURRENT drivers look like (`Gen/DriverGen.lean`, regenerated from `ccube.calculate` / `xcube.calculate`)
+
+The theorems above are about tasks that write only through their own views.  The regenerated facts say where each task's views
+come from and what else a task stores to: -/
+
+/-- in both drivers every task selects its part of every region with `region[tuple(flattened_slice)]`, the slice being built
+from that task's own sub-cube coordinates only, and stores to nothing shared except the diagnostic counters the property
+names (`intersection_data_points`, the tracing dict) -/
+theorem generated_tasks_share_only_diagnostics :
+    Gen.ccubeDriver.sharedStores.all (fun s => ["intersection_data_points"].contains s) = true ∧
+    Gen.xcubeDriver.sharedStores.all (fun s => ["_tracing"].contains s) = true ∧
+    Gen.ccubeDriver.viewSelection = ["regions = [region[tuple(flattened_slice)] for region in regions]"] ∧
+    Gen.xcubeDriver.viewSelection = ["regions = [region[tuple(flattened_slice)] for region in regions]"] ∧
+    Gen.ccubeDriver.flattened = ["[e for coords in subcube_coords for e in coords]"] ∧
+    Gen.xcubeDriver.flattened = ["[e for coords in nested_coords if coords is not None for e in coords]"] := by decide
+
+/-- the pooled branch maps exactly the task (wrapped only to hand a BaseException back) over exactly the product the serial
+branch loops over -/
+theorem generated_pooled_maps_the_serial_tasks :
+    Gen.ccubeDriver.serialLoop = true ∧ Gen.ccubeDriver.poolMapReraise = true ∧ Gen.ccubeDriver.workerHandsBack = true ∧
+    Gen.xcubeDriver.serialLoop = true ∧ Gen.xcubeDriver.poolMapReraise = true ∧ Gen.xcubeDriver.workerHandsBack = true := by decide
 
 end Catii.C16
